@@ -4,7 +4,8 @@ harness, so both sides hold the same class objects."""
 from collections import defaultdict, namedtuple
 from dataclasses import InitVar, dataclass, field
 from enum import Enum, Flag, IntEnum
-from math import inf
+from decimal import Decimal
+from math import inf, nan
 from typing import Any, NamedTuple
 
 import attrs
@@ -43,6 +44,18 @@ class Outer:
 class Point:
     x: Any
     y: Any = 0
+
+
+@dataclass
+class SubPoint(Point):
+    """a subclass with the same fields: never equal to a Point"""
+
+
+@dataclass
+class Point3(Point):
+    """a subclass with one more field"""
+
+    z: Any = 0
 
 
 @dataclass(frozen=True)
@@ -210,6 +223,26 @@ class LossyCopy:
         return f"LossyCopy({self.n!r})"
 
 
+class SelfCopy:
+    """__deepcopy__ returns the object itself, but the object is not even equal to itself (like float nan)"""
+
+    def __init__(self, n):
+        self.n = n
+
+    def __eq__(self, other):
+        if not isinstance(other, SelfCopy):
+            return NotImplemented
+        return False
+
+    __hash__ = None
+
+    def __deepcopy__(self, memo):
+        return self
+
+    def __repr__(self):
+        return f"SelfCopy({self.n!r})"
+
+
 def mutate_in_place(v, depth=0):
     """harness helper: changes the first mutable container found inside v (used to mutate an observed
     value *after* it was compared); returns True if something was changed"""
@@ -237,7 +270,7 @@ def mutate_in_place(v, depth=0):
 
 
 __all__ = [
-    "IdentityEq", "LossyCopy", "mutate_in_place", "APriv", "PAlias", "DInit", "make_dinit",
+    "IdentityEq", "LossyCopy", "SelfCopy", "Decimal", "nan", "mutate_in_place", "APriv", "PAlias", "DInit", "make_dinit",
     "Color", "Level", "Perm", "Outer", "Point", "FPoint", "Box", "APoint", "AFrozen",
-    "PModel", "NT", "TNT", "Opaque", "Vec", "defaultdict", "inf", "Hidden", "AHidden", "PHidden", "PExtra", "IVar",
+    "PModel", "NT", "TNT", "Opaque", "Vec", "defaultdict", "inf", "Hidden", "AHidden", "PHidden", "PExtra", "IVar", "SubPoint", "Point3",
 ]
